@@ -53,6 +53,7 @@ class Ctx:
 
     def cleanup(self):
         shutil.rmtree(self.scratch, ignore_errors=True)
+        shutil.rmtree(JTMP, ignore_errors=True)
 
 
 # ---------------------------------------------------------------- build
@@ -192,8 +193,12 @@ def _drive(ctx, exe, cmd, sub=None, extra=(), timeout=3000, env=None):
 
 
 # ---------------------------------------------------------------- TLC
+JTMP = os.path.join(OUT, 'jtmp.%d' % os.getpid())     # TLC leaves an empty tlc-<n> directory per run in java.io.tmpdir: ours, removed at the end
+
+
 def _tlc_cmd(workers, heap='6g'):
-    return ['java', '-XX:+UseParallelGC', '-XX:ParallelGCThreads=%d' % max(2, min(8, workers)), '-XX:-UsePerfData', '-Xmx' + heap, '-Xss64m',
+    os.makedirs(JTMP, exist_ok=True)
+    return ['java', '-Djava.io.tmpdir=' + JTMP, '-XX:+UseParallelGC', '-XX:ParallelGCThreads=%d' % max(2, min(8, workers)), '-XX:-UsePerfData', '-Xmx' + heap, '-Xss64m',
             '-cp', JAR, 'tlc2.TLC']
 
 
